@@ -108,8 +108,22 @@ def _u(fn, flag=None):
     return f
 
 
+def _helper_steps():
+    from scoda.misc.util import get_default_step_sizes
+    return get_default_step_sizes(upper_bound_shift=1)
+
+
+def _helper_values():
+    from scoda.misc.util import get_note_durations, get_tuplet_durations, get_dotted_note_durations
+    base = get_note_durations(2, 4)
+    return base + get_tuplet_durations(base, 3, 2) + get_dotted_note_durations(base, 1)
+
+
 UNARY = {
     "quantise": _u(lambda s: s.quantise()),
+    # grids and value lists as the library's own public helpers return them for non-default integer arguments
+    "quantise_helper_grid": _u(lambda s: s.quantise(_helper_steps())),
+    "qnl_helper_values": _u(lambda s: s.quantise_note_lengths(_helper_values())),
     "quantise46": _u(lambda s: s.quantise([4, 6])),
     "qnl": _u(lambda s: s.quantise_note_lengths()),
     "qnl_dne": _u(lambda s: s.quantise_note_lengths(do_not_extend=True)),
